@@ -40,6 +40,7 @@ PROBES = [
     "empty_read_before_data",
     "oneshot_raises",
     "coder_reused_after_reset",
+    "state_saved_and_restored",
 ]
 
 PREFIX = '@charset "'
@@ -263,6 +264,7 @@ def config(rs, run, tier):
         "text": text,
         "n_ops": r.choice([1, 2, 3, 4, 6, 9, 12, 12]),
         "final_mode": r.choice(["with_last", "trailing_empty"]),
+        "migrate_rate": r.choice([0.0, 0.0, 0.15, 0.4]),
         "reuse_after_reset": r.choice([None, None, '@charset "iso-8859-1";\u00e4 { }', "\u00e4 { left: 0 }", '@charset "utf-16";a{}']),
         "landmark_bias": r.choice([0.0, 0.5, 0.5, 0.9]),
         "short_rate": r.choice([0.0, 0.2, 0.6]),
@@ -403,6 +405,21 @@ class World:
         if self.raised:
             return "dead"
         try:
+            if k == "migrate":
+                # the state of the coder is saved and restored into a new coder, which takes over (what
+                # io.TextIOWrapper does on tell()/seek()): nothing buffered or decided may be lost
+                if self.cons not in ("idec", "ienc"):
+                    return "n/a"
+                state = self.c.getstate()
+                if self.cons == "idec":
+                    new = codecs.getincrementaldecoder("css")("strict", encoding=self.explicit, force=self.force)
+                else:
+                    new = codecs.getincrementalencoder("css")("strict", encoding=self.explicit)
+                new.setstate(state)
+                self.c = new
+                self.stats["fault:STATE_MIGRATED"] += 1
+                self.stats["probe:state_saved_and_restored"] += 1
+                return "migrated"
             if k == "feed":
                 return self._feed(op["n"], op.get("final", False))
             if k == "read":
@@ -683,6 +700,8 @@ def gen_op(r, w, i):
         return op
     if rem == 0:
         return None
+    if w.cons in ("idec", "ienc") and w.pos and not w.finalised and r.random() < cfg.get("migrate_rate", 0.0):
+        return {"op": "migrate"}
     if r.random() < cfg["landmark_bias"]:
         nxt = sorted(p for p in w.landmarks if p > w.pos)
         if nxt:
